@@ -397,11 +397,23 @@ def gen_kernels_sgp4():
     return p.stdout.decode()
 
 
+def gen_kernels_instr():
+    """T-C for the instrument scan definitions (C19): trace geoloc_instrument_definitions.py and ScanGeometry.__init__ /
+    .times of the current source on symbolic scan positions (harness/symtrace_instr.py), in a child interpreter."""
+    import subprocess
+    env = dict(os.environ, PV_REPO=REPO, PYTHONDONTWRITEBYTECODE="1")
+    p = subprocess.run([sys.executable, os.path.join(HERE, "symtrace_instr.py")], stdout=subprocess.PIPE,
+                       stderr=subprocess.PIPE, env=env, timeout=600)
+    if p.returncode != 0 or not p.stdout.startswith(b"/- GENERATED"):
+        raise ExtractError("symbolic tracing of the instrument definitions failed: " + p.stderr.decode(errors="replace")[-1200:])
+    return p.stdout.decode()
+
+
 def regenerate():
     changed = []
     errors = []
     for name, fn in (("Consts.lean", gen_consts), ("TleColumns.lean", gen_tle_columns), ("Kernels.lean", gen_kernels),
-                     ("KernelsSgp4.lean", gen_kernels_sgp4)):
+                     ("KernelsSgp4.lean", gen_kernels_sgp4), ("KernelsInstr.lean", gen_kernels_instr)):
         try:
             text = fn()
         except Exception as e:  # noqa  keep going: the other generated files must still be current
